@@ -9,6 +9,7 @@ cluster content — and, since the repair of D11, over decoders that fail after 
 import JubakoModel.Model.SyncVec
 import JubakoModel.Lemmas.SyncVec
 import JubakoModel.Lemmas.Cache
+import JubakoModel.Lemmas.FuncsProto
 
 namespace Jubako
 
@@ -99,5 +100,42 @@ example :
       s.readers[0]? = some (RPhase.done 1 6 [1, 2, 3, 4, 5]) ∧
       s.readers[1]? = some (RPhase.done 10 20 [10, 11, 12, 13, 14, 15, 16, 17, 18, 19]) := by
   refine ⟨_, rfl, ?_, ?_⟩ <;> decide
+
+/-! ### One open file shared by every reader of a pack file -/
+
+/-- **Readers sharing one open file.**  Any number of threads, each running any list of positioned
+    accesses of the shape `lock; seek(offset); read(n); unlock` on one shared file cursor, under any
+    schedule (any interleaving of the individual actions, blocked threads being skipped): every read
+    returns exactly the bytes of the file at the offset its access asked for.  (The cluster tail loads,
+    the stream reads of raw contents and the decoders' input reads of one pack file all go through this
+    cursor.) -/
+theorem c07_shared_file_reads_exact (file : Bytes) (progs : List (List (Nat × Nat))) (sched : List Nat) :
+    ((FState.init file atomicAccess progs).run sched).readsExact :=
+  (finv_run _ (finv_init file progs) sched).exact
+
+/-- **… and that shape is the shape of the source**: the action sequences of `FileSource::read`,
+    `FileSource::read_exact` and of the small-block arm of `FileSource::cut`, extracted from
+    `bases/io/file.rs` on every run (Generated/FuncsProto.lean), are `atomicAccess`.  A body that takes the
+    lock twice, seeks conditionally or reads through another path no longer extracts. -/
+theorem c07_file_access_shape_is_source_shape :
+    Generated.fileSourceReadProto = atomicAccess ∧ Generated.fileSourceReadExactProto = atomicAccess ∧
+    Generated.fileSourceCutSmallProto = atomicAccess :=
+  gen_fileSourceProto
+
+/-- the theorem is not vacuous and the shape matters: two threads reading 2 bytes at offsets 0 and 5 —
+    with the cursor set and used under two separate holds of the lock (`lock; seek; unlock; lock; read;
+    unlock`) there is a schedule on which the first thread gets the bytes at offset 5 -/
+theorem c07_split_lock_access_fails :
+    let file : Bytes := [10, 11, 12, 13, 14, 15, 16, 17]
+    let split : List FAct := [.lock, .seek, .unlock, .lock, .read, .unlock]
+    let s := (FState.init file split [[(0, 2)], [(5, 2)]]).run [0, 0, 0, 0, 1, 1, 1, 1, 0, 0, 0]
+    (s.threads 0).got = [(0, 2, [15, 16])] := by
+  decide
+
+example :
+    let file : Bytes := [10, 11, 12, 13, 14, 15, 16, 17]
+    let s := (FState.init file atomicAccess [[(0, 2)], [(5, 2)]]).run [0, 0, 0, 1, 1, 1, 0, 0, 0, 1, 1, 1, 1]
+    (s.threads 0).got = [(0, 2, [10, 11])] ∧ (s.threads 1).got = [(5, 2, [15, 16])] := by
+  decide
 
 end Jubako
